@@ -284,12 +284,29 @@ def replay(rec, ctx):
             want = defaults[i][attr] if vv == 0 else conc(attr, vv)
             if not _eq(getattr(obs[i], attr), want):
                 bad("non-member-value-changed", f"observer {i} (not in the group) has {attr} = {getattr(obs[i], attr)!r}, spec value id {vv}")
-    if len(members) >= 2:
-        sl = group[0:2]
-        if len(sl) != 2 or sl[0] is not members[0] or sl[1] is not members[1]:
-            bad("slice-lookup", "group[0:2]")
-        if group[-1] is not members[-1]:
-            bad("index-lookup", "group[-1]")
+    # every valid index (negative ones too) and a family of slices, with Python's sequence semantics; one past either end raises
+    n_ = len(members)
+    for i in range(-n_, 0):
+        try:
+            if group[i] is not members[i]:
+                bad("index-lookup", f"group[{i}]")
+        except Exception as ex:           # noqa: BLE001
+            bad("index-lookup", f"group[{i}] raised {type(ex).__name__} on a group of {n_}")
+    for i in (n_, -n_ - 1):
+        try:
+            group[i]
+            bad("index-out-of-range-accepted", f"group[{i}] on a group of {n_}")
+        except IndexError:
+            pass
+        except Exception as ex:           # noqa: BLE001
+            bad("index-out-of-range-raised-" + type(ex).__name__, f"group[{i}]")
+    for sl_ in (slice(0, 2), slice(1, None), slice(None, None, 2), slice(None, None, -1), slice(-2, None), slice(5, 9)):
+        try:
+            got_ = list(group[sl_])
+            if len(got_) != len(members[sl_]) or any(a is not b for a, b in zip(got_, members[sl_])):
+                bad("slice-lookup", f"group[{sl_}]")
+        except Exception as ex:           # noqa: BLE001
+            bad("slice-lookup", f"group[{sl_}] raised {type(ex).__name__}")
     for n, i in rec["byname"]:
         try:
             if group[n] is not obs[i]:
